@@ -200,10 +200,11 @@ XalanSourceTreeContentHandler::ignorableWhitespace(
 {
     assert(m_inDTD == false);
 
-    // Ignore any whitespace reported before the document element has been parsed.
-    if (m_elementStack.empty() == false)
+    // Ignore any whitespace reported outside the document element.  (The
+    // element stack always holds the dummy entry pushed by startDocument(),
+    // so it cannot be used for this test.)
+    if (m_currentElement != 0)
     {
-        assert(m_currentElement != 0);
 
         processAccumulatedText();
 
